@@ -1,7 +1,7 @@
 (* C09 -- property theorems only: each is closed by [exact] of a lemma proved elsewhere. *)
 From Coq Require Import List Arith ZArith NArith PArith.
 From Muscle Require Import Cont.HtModel Cont.HtStep Cont.HtIdeal Cont.HtLemmas Cont.HtRepr Cont.HtWalk
-                           Cont.HtTable Cont.HtInv Cont.HtSafe Cont.HtSafeAll Cont.HtRefine Cont.HtPend Cont.HtTravW Cont.HtTravOps Cont.HtTravThm Cont.HtSorted Cont.HtSortedThm Gen.Consts.
+                           Cont.HtTable Cont.HtInv Cont.HtSafe Cont.HtSafeAll Cont.HtRefine Cont.HtPend Cont.HtTravW Cont.HtTravOps Cont.HtTravThm Cont.HtTravRefuted Cont.HtSorted Cont.HtSortedThm Gen.Consts.
 Import ListNotations.
 
 (* InsertIterationEntry is list insertion: if the links of h form the list l1 ++ l2 and e is an
@@ -84,26 +84,32 @@ Print Assumptions C09_ht_refines.
    operate on iterator i and are calm ([calm]: every operation except those that may relink a
    surviving entry -- MoveTo*, PutAt*/PutBefore/PutBehind, Sort*, Reposition, SetAutoSortEnabled,
    Put on an existing key of an auto-sorting table, CopyFrom, copy construction -- which are admitted only
-   when they leave the world unchanged).  [trav i w ops]: the entries newly shown by the advances. *)
+   when they leave the world unchanged).  [trav i w ops]: the entries newly shown by the advances.
+   PARTIAL.  Full statement: the same three theorems with [calm] replaced by the semantic premise "the
+   operation does not change the relative order of the surviving entries of the iterator's table"
+   ([sem_ok]).  That statement is REFUTED for Put-with-position on the auto-sorting classes
+   (C09_traversal_semantic_refuted below, replayed on the implementation); for the other relinking
+   operations (which act only when they change the order, after fix 5556955) it is not proved here --
+   the harness oracle evaluates exactly that semantic premise on the implementation. *)
 
 (* no entry is shown twice *)
-Theorem C09_iter_no_dup : forall var dcap i ops w, WF w -> reg w i -> tr_ok var dcap i w ops ->
+Theorem C09_iter_no_dup_partial : forall var dcap i ops w, WF w -> reg w i -> tr_ok var dcap i w ops ->
   NoDup (trav var dcap i w ops).
 Proof. exact trav_nodup. Qed.
-Print Assumptions C09_iter_no_dup.
+Print Assumptions C09_iter_no_dup_partial.
 
 (* nothing that stays in the iterator's table is skipped: it is shown, or still to come *)
-Theorem C09_iter_no_skip : forall var dcap i ops w, WF w -> reg w i -> tr_ok var dcap i w ops ->
+Theorem C09_iter_no_skip_partial : forall var dcap i ops w, WF w -> reg w i -> tr_ok var dcap i w ops ->
   forall n, In n (pending w i) -> stays var dcap i n w ops ->
   In n (trav var dcap i w ops) \/ In n (pending (run1 var dcap w ops) i).
 Proof. exact trav_noskip. Qed.
-Print Assumptions C09_iter_no_skip.
+Print Assumptions C09_iter_no_skip_partial.
 
 (* a complete traversal: an iterator created by GetIterator() (either direction) on a non-empty table
    and advanced, interleaved with any calm operations on any tables and any operations on other
    iterators, until HasData() is false, has shown every entry that was in its table from creation to
    the end exactly once, and no entry twice *)
-Theorem C09_traversal_complete : forall var dcap w0 i t bw ops, WF w0 ->
+Theorem C09_traversal_complete_partial : forall var dcap w0 i t bw ops, WF w0 ->
   i < length (its w0) -> t < length (tabs w0) -> cnt (gett w0 t) <> 0 ->
   let w := fst (step1 var dcap w0 (OIterNew i t bw)) in
   tr_ok var dcap i w ops ->
@@ -111,7 +117,18 @@ Theorem C09_traversal_complete : forall var dcap w0 i t bw ops, WF w0 ->
   let V := opt_list (cur w i) ++ trav var dcap i w ops in
   NoDup V /\ (forall n, In n (ids (gett w0 t)) -> stays var dcap i n w ops -> In n V).
 Proof. exact traversal_complete. Qed.
-Print Assumptions C09_traversal_complete.
+Print Assumptions C09_traversal_complete_partial.
+
+(* the purely semantic premise is not sufficient: a run in which every mutation keeps the relative
+   order of the surviving entries, yet an entry that stays in the table is never shown *)
+Theorem C09_traversal_semantic_refuted :
+  exists (w : world) (ops : list op) (n : positive),
+    sem_ok VVals 7%N 0 w ops = true /\
+    memb n (it_list w 0) = true /\ staysb VVals 7%N 0 n w ops = true /\
+    shown (run1 VVals 7%N w ops) 0 = None /\
+    memb n (opt_list (cur w 0) ++ trav VVals 7%N 0 w ops) = false.
+Proof. exact traversal_semantic_refuted. Qed.
+Print Assumptions C09_traversal_semantic_refuted.
 
 (* non-vacuity of the traversal premises: removals of the current and of the next entry, an insertion
    and a growth of the table between the advances of a forward iterator *)
